@@ -30,7 +30,7 @@ import (
 
 // Step is one step of a history
 type Step struct {
-	// Kind: discover | request | restart
+	// Kind: discover | request | restart | wait (2.1 s of wall-clock time pass)
 	Kind   string `json:"kind"`
 	Client int    `json:"client,omitempty"`
 	// Host: hostname option bytes (hex); empty = no option 12
@@ -117,7 +117,15 @@ func (c *Case) ask(h handler.Handler4, client int, kind, host string, xid uint32
 	if !ok {
 		return reply{viol: core.Violate(c.Mode+"/harness", "harness built a request the server would not pass to the chain")}
 	}
-	resp, stop := h(req, stub)
+	var resp *dhcpv4.DHCPv4
+	var stop bool
+	returned, pan := core.Call(20*time.Second, func() { resp, stop = h(req, stub) })
+	if pan != nil {
+		panic(pan)
+	}
+	if !returned {
+		return reply{viol: core.Violate("C02/wedged", "the handler did not return within 20 s")}
+	}
 	if resp == nil {
 		if !stop {
 			return reply{viol: core.Violate("C02/nil-without-stop", "handler returned nil without stop")}
@@ -361,6 +369,9 @@ func Exec(c Case) (res core.Result) {
 		if r := recover(); r != nil {
 			res = core.Result{Viol: core.Violate(c.Mode+"/panic", "range plugin panicked: %v", r)}
 		}
+		if res.Viol != nil && strings.HasSuffix(res.Viol.Signature, "/wedged") {
+			res.Viol.Signature = c.Mode + "/wedged"
+		}
 		if res.Viol != nil && len(res.Viol.Signature) >= 3 && res.Viol.Signature[:3] != c.Mode {
 			res = core.Result{Classes: []string{"abandoned:" + res.Viol.Signature[:3]}}
 		}
@@ -389,6 +400,11 @@ func Exec(c Case) (res core.Result) {
 	var sawRepeat, sawRestart, sawFull, sawOddLen, sawNumHost bool
 	xid := uint32(1)
 	for i, st := range c.Steps {
+		if st.Kind == "wait" {
+			// lets wall-clock time pass, so that a renewal promises a later lease end than the stored one
+			time.Sleep(2100 * time.Millisecond)
+			continue
+		}
 		if st.Kind == "restart" {
 			h2, err := c.setup(db)
 			if err != nil {
@@ -460,11 +476,20 @@ func Exec(c Case) (res core.Result) {
 			sawFull = true
 		}
 	}
+	sawWait := false
+	for _, st := range c.Steps {
+		if st.Kind == "wait" {
+			sawWait = true
+		}
+	}
 	switch c.Mode {
 	case "C02":
 		res.NonTrivial = sawRepeat && (sawRestart || sawFull || conc)
 	case "C03":
-		res.NonTrivial = sawOddLen || sawNumHost
+		res.NonTrivial = sawOddLen || sawNumHost || (sawWait && sawRepeat)
+	}
+	if sawWait && sawRepeat {
+		res.Classes = append(res.Classes, "renewal-after-time-passed")
 	}
 	if sawRepeat {
 		res.Classes = append(res.Classes, "repeat-client")
